@@ -309,6 +309,18 @@ func judgeC13(c *world.Case, o *world.Outcome) string {
 		}
 		return ""
 	}
+	if op == "cache" && pipelined && len(present) > 0 {
+		// Cache is all-or-nothing: with a shard file missing, every shard is
+		// computed again (and its file rewritten), none is served from old files.
+		for _, site := range metaStrings(c.Meta["reader_sites"]) {
+			for _, sh := range present {
+				if calls[fmt.Sprintf("%s#s%d", site, sh)] == 0 {
+					o.Detail = fmt.Sprintf("Cache: %d of %d shard files were present, yet shard %d was served from its old file (its reader %s was never called)", len(present), nshard, sh, site)
+					return "cache-served-incomplete-set"
+				}
+			}
+		}
+	}
 	if op == "cachepartial" && pipelined {
 		for _, site := range metaStrings(c.Meta["reader_sites"]) {
 			for _, sh := range present {
